@@ -470,158 +470,6 @@ def run(ck):
     found = counters["found"]
     n_eval = counters["eval"]
 
-    ck.coverage.update({"evaluations": 0, "distinct_nontrivial": 0, "rule": "model did not build", "samples": []})
-        ck.report_broken(found)
-        return
-
-    # the spelling tables come from the regenerated sources, through the extracted model
-    tl = ck.model(["TABLES"])[0]
-    T = {}
-    for kv in tl.split("|"):
-        k, v = kv.split("=", 1)
-        T[k] = dec_list(v) if k != "wf" else v
-    ck.obligations.append("tables_wf computes to true on the regenerated tables (extracted)")
-    if T["wf"] == "T":
-        ck.discharged.append("tables_wf (extracted)")
-    else:
-        ck.broken.append("tables_wf computes to false on the regenerated tables")
-    # every spelling must run the command it is a spelling of in the loaded SDK
-    canon = {"if": "If", "elseif": "ElseIf", "else": "Else", "endif": "EndIf", "while": "While",
-             "endwhile": "EndWhile", "for": "ForIn", "endfor": "EndForIn"}
-    names, want = [], []
-    for k, suffix in canon.items():
-        full = [n for n in T[k] if n.endswith("::" + suffix)]
-        for n in T[k]:
-            names.append(n)
-            want.append(full[0] if full else "?missing-full-name")
-    names += ["end", "emit", "next", "set", "array", "array_push", "not"] + SAFE_VALUES + ["undefined"]
-    reg = dec_list(ck.impl(["REG\t" + enc_list(names)])[0])
-    ck.obligations.append("registry: every spelling of the generated tables runs its command in the loaded SDK")
-    bad_reg = [(n, w, g) for n, w, g in zip(names, want, reg) if w != g]
-    if bad_reg or reg[len(want)] != "end":
-        ck.broken.append("registry disagrees with GenFlowNames: %s" % bad_reg[:3])
-    else:
-        ck.discharged.append("registry")
-    safe_values = [v for v, g in zip(names[len(want) + 7:], reg[len(want) + 7:]) if g == "?" and v != "undefined"]
-
-    cases = []    # (kind, tree, init)
-    # 0. corpus: F5 witness (full names of elseif / else), spelled canonically
-    full = {k: [n for n in T[k] if "::" in n][0] for k in canon}
-    cases.append(("corpus", [("i", full["if"], ("N", "c"), [("c", ("E", "a", []))],
-                              [("ei", full["elseif"], ("N", "c"), [("c", ("E", "b", []))]),
-                               ("el", full["else"], [("c", ("E", "d", []))])], full["endif"]),
-                             ("c", ("E", "z", []))], ["c", "FT"]))
-    cases.append(("corpus", [("i", full["if"], ("N", "c"), [("c", ("E", "a", []))],
-                              [("el", full["else"], [("c", ("E", "d", []))])], "end")], ["c", "F"]))
-    # 1. every spelling of every keyword, one construct at a time
-    for so in T["if"]:
-        for sc in T["close_if"]:
-            for sei in T["elseif"]:
-                for sel in T["else"]:
-                    for script in ("T", "FT", "FF"):
-                        cases.append(("spelling", [("i", so, ("N", "c"), [("c", ("E", "a", []))],
-                                                     [("ei", sei, ("N", "c"), [("c", ("E", "b", []))]),
-                                                      ("el", sel, [("c", ("E", "d", []))])], sc),
-                                                    ("c", ("E", "z", []))], ["c", script]))
-    for so in T["while"]:
-        for sc in T["close_while"]:
-            cases.append(("spelling", [("w", so, ("N", "c"), [("c", ("E", "a", []))], sc), ("c", ("E", "z", []))], ["c", "TTF"]))
-    for so in T["for"]:
-        for sc in T["close_for"]:
-            cases.append(("spelling", [("c", ("A", "h", ["p", "q"])), ("f", so, "v", "h", [("c", ("E", "a", ["v"]))], sc),
-                                        ("c", ("E", "z", []))], []))
-    n_spelling = len(cases)
-    # 2. every skeleton with <= N constructs, depth <= 3, under every boolean script of length L
-    n_constr = 4 if thorough else 3
-    script_len = 6 if thorough else 5
-    scripts = ["".join(p) for p in itertools.product("TF", repeat=script_len)] + ["", "T", "TT"]
-    n_skel = 0
-    for n in range(1, n_constr + 1):
-        for forest in forests(n, 3):
-            n_skel += 1
-            loopvars = []
-            blk = [("c", ("A", "h", ["p", "q"]))] + skeleton_block(forest, T, Namer(), loopvars)
-            nconds = sum(1 for tok in t_block(blk) if tok == "N")
-            for sc in scripts:
-                # a script longer than needed only changes the left-over: keep all for <= 2 conditions,
-                # otherwise only the full-length ones
-                if len(sc) < script_len and nconds > 2:
-                    continue
-                cases.append(("skeleton", blk, ["c", sc]))
-    n_exh = len(cases)
-    # 3. random programs
-    g = Gen(rng, T, safe_values or ["x"])
-    for _ in range(60000 if thorough else 6000):
-        tree, init = g.program(60, rng.choice([1, 2, 3, 4, 5, 5]))
-        cases.append(("random", tree, init))
-
-    lines = [case_line(t, i) for (_, t, i) in cases]
-    m_out = ck.model(lines, timeout=900)
-    scripts_txt, impl_lines, idx = [], [], []
-    for k, o in enumerate(m_out):
-        f = o.split("\t")
-        if len(f) != 4:
-            ck.broken.append("model driver: bad output %r on case %d" % (o[:80], k))
-            continue
-        idx.append(k)
-        impl_lines.append("R\t%s\t%s" % (f[0], enc_list(cases[k][2])))
-    i_out = ck.impl(impl_lines, timeout=900)
-
-    nontriv = set()
-    dist = {"kinds": {}, "model_outcomes": {}, "constructs": {}, "depth": {}, "instructions": {}, "trace_len": {}}
-    samples = []
-    n_eval = 0
-    for k, io in zip(idx, i_out):
-        kind, tree, init = cases[k]
-        text, wf, spec, model = m_out[k].split("\t")
-        n_eval += 1
-        dist["kinds"][kind] = dist["kinds"].get(kind, 0) + 1
-        oc = model.split("|")[0].split(" ")[0]
-        dist["model_outcomes"][oc] = dist["model_outcomes"].get(oc, 0) + 1
-        st = stats(tree)
-        ncon = st["if"] + st["while"] + st["for"]
-        for key, val in (("constructs", ncon), ("depth", st["depth"]), ("instructions", len(dec_list(text)) // 10 * 10)):
-            dist[key][val] = dist[key].get(val, 0) + 1
-        script_lines = dec_list(text)
-        bad = None
-        if wf != "T":
-            bad = "generated program is outside the theorem's domain (wf = F)"
-        elif spec.startswith("OK") and model.startswith("OK"):
-            tl_ = len(model.split("|")[1][2:].split(";")) if model.split("|")[1] != "T:" else 0
-            dist["trace_len"][min(tl_, 50) // 5 * 5] = dist["trace_len"].get(min(tl_, 50) // 5 * 5, 0) + 1
-            if ncon >= 1:
-                nontriv.add((text, tuple(init)))
-            if split_result(model)[0] != spec:
-                bad = "extracted model and extracted spec (tree_run) disagree"
-            elif io != model:
-                mi, ci = split_result(model), split_result(io)
-                if not io.startswith("OK"):
-                    bad = "implementation stopped (%s) where the structured semantics runs to the end" % io
-                elif mi[0] != ci[0]:
-                    bad = "trace / final variables differ from the tree-walking interpreter"
-                else:
-                    bad = "cached block tables differ from the model's"
-        elif spec == "ERR":
-            # array_push on a variable that holds no array: outside the compared domain
-            pass
-        elif spec == "FUEL" or model == "FUEL":
-            pass
-        else:
-            bad = "spec is %s but the flat machine %s" % (spec[:10], model[:30])
-        if bad:
-            found = True
-            if len(ck.violations) < 5:
-                replay_line = impl_lines[idx.index(k)]
-                ck.violation({
-                    "kind": bad, "case_kind": kind, "script": script_lines, "initial_variables": init,
-                    "tree_prefix": " ".join(t_block(tree)),
-                    "spec(tree_run)": spec, "model(flat machine)": model, "implementation": io,
-                    "theorems": ["C04_sim_partial", "C04_find_own_end", "C04_tables"], "seed": ck.seed,
-                    "replay_cmd": "printf '%s\\n' | .cache/cargo-target/release/c04" % replay_line.replace("\t", "\\t"),
-                })
-        elif len(samples) < 4 and kind in ("skeleton", "random") and ncon >= 2 and (k % 997 == 0 or kind == "random" and len(samples) < 2):
-            samples.append({"script": script_lines, "init": init})
-
     ck.coverage.update({
         "evaluations": n_eval,
         "distinct_nontrivial": len(nontriv),
